@@ -36,15 +36,19 @@ func VerifyIndex(ctx context.Context, name string, idx Index, n int, pb Progress
 		defer f.Close()
 		g.Go(func() error {
 			for c := range in {
+				verifTrace("v.take", c[0].Start, uint64(len(c)), 0)
 				// Reuse the fileSeedSegment structure, this is really just a seed segment after all
 				segment := newFileSeedSegment(name, c, false)
 				if err := segment.Validate(f); err != nil {
+					verifTrace("v.fail", c[0].Start, uint64(len(c)), 0)
 					return err
 				}
+				verifTrace("v.ok", c[0].Start, uint64(len(c)), 0)
 
 				// Update progress bar, if any
 				pb.Add(len(c))
 			}
+			verifTrace("v.exit", 0, 0, 0)
 			return nil
 		})
 	}
@@ -76,6 +80,7 @@ loop:
 		case in <- idx.Chunks[i : last+1]:
 		}
 	}
+	verifTraceBool("v.close", interrupted)
 	close(in)
 
 	if err := g.Wait(); err != nil {
